@@ -3,12 +3,14 @@ package restorer
 // C21: restore --verify (Restorer.VerifyFiles) reports exactly the files that
 // differ from the snapshot.
 //
-// History (fixed): a snapshot with five regular files
+// History (fixed): a snapshot with six regular files
 //   empty   0 bytes, no blob
 //   small   1 blob of 1500 bytes
 //   three   3 blobs A|B|C (20000, 33000, 20000 bytes; len(A) == len(C))
 //   zeros   the repository's 512 KiB zero chunk
 //   sub/two 2 blobs (700 + 900 bytes) in a sub directory
+//   rep     5 blobs H|Z|Z|Z|T (300, 3 x the same 200 bytes, 300): a run of
+//           identical consecutive blobs
 // is restored with the real RestoreTo into a fresh directory.  Then every
 // enumerated single damage is applied to the restored tree, VerifyFiles is run
 // on the same Restorer (twice: with a counting error handler as cmd/restic
@@ -28,7 +30,7 @@ package restorer
 //            the target, by a dangling symlink; remove the file
 //   none     the untouched tree
 //
-// Oracle: no damage => no error returned, nothing reported, all 5 files
+// Oracle: no damage => no error returned, nothing reported, all 6 files
 // counted.  Damage of file X => the default handler makes VerifyFiles return
 // an error whose text names X; with the counting handler at least one error is
 // reported, and every reported error names X (location or text) - no other
@@ -81,6 +83,8 @@ func verifC21Files() []*verifC21File {
 		{rel: "three", parts: [][]byte{verifC21LCG(20000, 2), verifC21LCG(33000, 3), verifC21LCG(20000, 4)}},
 		{rel: "zeros", parts: [][]byte{make([]byte, 512*1024)}},
 		{rel: "sub/two", parts: [][]byte{verifC21LCG(700, 5), verifC21LCG(900, 6)}},
+		// a run of identical consecutive blobs (as in zero-filled or repetitive regions of larger files)
+		{rel: "rep", parts: [][]byte{verifC21LCG(300, 7), verifC21LCG(200, 8), verifC21LCG(200, 8), verifC21LCG(200, 8), verifC21LCG(300, 9)}},
 	}
 	for _, f := range l {
 		for _, p := range f.parts {
@@ -237,7 +241,7 @@ type verifC21Report struct {
 func TestVerif_C21(t *testing.T) {
 	r := vh.Start(t, "C21")
 	defer r.Finish()
-	r.Rule("fixed history (restore of a 5-file snapshot) x every enumerated single damage (byte flips and truncations at every offset of small files / first+last 64 bytes and blob boundaries +-2 of large ones, extensions, blob swap, replacement by dir/symlink, removal) x 2 error handlers x 4 restorer option sets (default, overwrite if-changed, overwrite if-newer, sparse); one real VerifyFiles per element; non-trivial = the tree really differs from the snapshot when VerifyFiles runs")
+	r.Rule("fixed history (restore of a 6-file snapshot (one with a run of identical consecutive blobs)) x every enumerated single damage (byte flips and truncations at every offset of small files / first+last 64 bytes and blob boundaries +-2 of large ones, extensions, blob swap, replacement by dir/symlink, removal) x 2 error handlers x 4 restorer option sets (default, overwrite if-changed, overwrite if-newer, sparse); one real VerifyFiles per element; non-trivial = the tree really differs from the snapshot when VerifyFiles runs")
 	r.Assume("the mtime of a damaged regular file is reset to the snapshot mtime", "one damaged file at a time")
 
 	ctx := context.Background()
@@ -255,7 +259,7 @@ func TestVerif_C21(t *testing.T) {
 	}
 	sn, _ := saveSnapshot(t, repo, Snapshot{Nodes: map[string]Node{
 		"empty": mk(files[0]), "small": mk(files[1]), "three": mk(files[2]), "zeros": mk(files[3]),
-		"sub": Dir{ModTime: verifC21MTime, Nodes: map[string]Node{"two": mk(files[4])}},
+		"sub": Dir{ModTime: verifC21MTime, Nodes: map[string]Node{"two": mk(files[4])}}, "rep": mk(files[5]),
 	}}, noopGetGenericAttributes)
 
 	outside := filepath.Join(r.Scratch, "outside")
